@@ -66,8 +66,8 @@ def ob_hub_update(nd):
     return ob
 
 
-def ob_bond_rewards(ctx):
-    W = HubWorld(ctx, n_validators=1, n_delegations=1)
+def ob_bond_rewards(ctx, nv=1):
+    W = HubWorld(ctx, n_validators=nv, n_delegations=1)
     W.install()
     I = W.I
     n = 0
@@ -238,7 +238,7 @@ def ob_dispatch_executes(ctx):
 
 
 OBLIGATIONS = [('dispatch_step_executes', ob_dispatch_executes), ('hub_update_d0', ob_hub_update(0)), ('hub_update_d1', ob_hub_update(1)), ('hub_update_d2', ob_hub_update(2)), ('hub_update_d3', ob_hub_update(3)),
-               ('bond_rewards', ob_bond_rewards), ('linked_update', ob_linked)]
+               ('bond_rewards', ob_bond_rewards), ('bond_rewards_v2', lambda ctx: ob_bond_rewards(ctx, 2)), ('linked_update', ob_linked)]
 
 
 def ORACLE(v, scn, out):
